@@ -34,6 +34,16 @@ def word(rnd):
 def identifier(rnd, taken):
     for _ in range(100):
         ident = "_".join(word(rnd) for _ in range(rnd.randint(1, 3)))
+        # underscores of unusual shape: doubled, trailing, leading (the name
+        # shows every underscore as a blank; variant and constant are built
+        # from the words)
+        r = rnd.random()
+        if r < 0.04 and "_" in ident:
+            ident = ident.replace("_", "__", 1)
+        elif r < 0.07:
+            ident = ident + "_"
+        elif r < 0.09:
+            ident = "_" + ident
         key = ident.replace("_", "").lower()
         if key not in taken and ident not in ("Self", "One"):
             taken.add(key)
@@ -207,7 +217,9 @@ def random_def(rnd, name, kind=None, derived=None, taken_idents=None, safe=False
     elif kind == "noref":
         units = random_units(rnd, rnd.randint(2, 6), False, taken_idents)
     else:
-        units = random_units(rnd, rnd.randint(2, 8), True, taken_idents, safe=safe)
+        # now and then more than twenty units (sorting must stay stable)
+        n_units = rnd.randint(21, 26) if rnd.random() < 0.06 else rnd.randint(2, 8)
+        units = random_units(rnd, n_units, True, taken_idents, safe=safe)
     extras = []
     if rnd.random() < 0.5:
         extras.append((rnd.randint(0, len(units)), "/// Generated quantity %s" % name))
@@ -253,11 +265,11 @@ def emit_def(d, order=None, vis="pub "):
 
 
 def const_name(ident):
-    return ident.upper()
+    return "_".join(w.upper() for w in ident.split("_") if w)
 
 
 def variant_name(ident):
-    return "".join(w[:1].upper() + w[1:] for w in ident.split("_"))
+    return "".join(w[:1].upper() + w[1:] for w in ident.split("_") if w)
 
 
 def model(d, order=None):
